@@ -127,6 +127,7 @@ def run(tier, report):
         spec2 = Spec('quick')
         spec2.depth = 2
         spec2._roots = [('mixed-holes', {}, ROOT_PREFIXES['mixed-holes']), ('all-packed', {}, ROOT_PREFIXES['all-packed'])]
+        spec2.listdir_order = 'reversed'     # environment answer: os.listdir lists the loose / packs folders in reverse-sorted order
         sub = Report('C03', tier, LEVEL)
         explore(spec2, sub)
         report.violations += sub.violations
